@@ -88,7 +88,7 @@ CLAIMED = {
             "dp.dp / best_alignment hand-modelled, tied by exact correspondence; F12 (border gap) and F31 recorded",
             "Coq proof (grid DP instance) + exact correspondence + brute force"),
     "C19": ("Coq theorems over the reals for the seven closed-form expressions REGENERATED from similarity.py: "
-            "antitone/monotone, value 1 at distance 0, range [0,1]; docstring of 'reverse' refuted; parameter "
+            "antitone/monotone, value 1 at distance 0, range [0,1]; documented formulas (regenerated from the docstrings) = computed formulas; parameter "
             "derivation, dispatch, keep_sign and re-application checked on float arrays",
             "real-number axioms of the standard library; rounding of exp/division not modelled",
             "Coq proof (Reals) over translator output + correspondence"),
